@@ -124,6 +124,10 @@ func (m *Model) PullPositions(ctx context.Context, ops ...resource.ReadOption) <
 				all[change.Id] = change.NewValue.(*traits.OpenClosePosition)
 			}
 
+			if !change.SeedValue {
+				// seed values come first, if this isn't one we've seen them all, even if there weren't any
+				seenAll = true
+			}
 			shouldSend := seenAll || (change.LastSeedValue && !readRequest.UpdatesOnly)
 			if change.LastSeedValue {
 				seenAll = true
